@@ -37,3 +37,21 @@ Proof.
   - rewrite (pad_to_denote p rho pcs d' dd vs Hd Ed Hpos Hvs) in Hpp. inversion Hpp; subst ppcs.
     rewrite total_app, total_cons. change (total []) with 0. cbn [fst]. ring.
 Qed.
+
+(* ROUND 5 (audit: non-vacuity of the consequence clause): the hypotheses of pad_holds_end_voltage are jointly satisfiable
+   by a non-trivial template - the loop over range(0,6,2) around a mapped linear table (three pieces, the pulse ends on 5
+   on channel 4) padded from duration 3 to duration 10 *)
+Lemma pad_nonvacuous :
+  let p := For 1%N (EC 0) (EC 6) (EC 2)
+               (Map (Table [(1%N, [(EC 0, EV 1%N, IHold); (EC 1, EAdd (EV 1%N) (EC 1), ILin)])]) [(2%N, EV 1%N)] [(1%N, Some 4%N)]) in
+  exists pcs dd vs x,
+    wf p = true /\ guard_C07_final_tail p env_empty = true /\ denote p env_empty = Some pcs /\ length pcs = 3%nat /\
+    eval env_empty (ESub (EC 10) (duration_expr p)) = Some dd /\ Qle_bool dd 0 = false /\
+    opt_all (map (fun kv => option_map (fun q => (fst kv, q)) (eval env_empty (snd kv))) (final_expr p)) = Some vs /\
+    p_end pcs 4%N = Some x /\ x == 5 /\ dd == 7.
+Proof.
+  cbv zeta. eexists. eexists. eexists. eexists.
+  split; [vm_compute; reflexivity|]. split; [vm_compute; reflexivity|]. split; [vm_compute; reflexivity|].
+  split; [vm_compute; reflexivity|]. split; [vm_compute; reflexivity|]. split; [vm_compute; reflexivity|].
+  split; [vm_compute; reflexivity|]. split; [vm_compute; reflexivity|]. split; vm_compute; reflexivity.
+Qed.
